@@ -49,6 +49,8 @@ def gen_plan(rng, tier, config, opts):
             ln += ' pair=%d' % (1 + rng.below(1000))
         if name in ARRAY_OPS:
             ln += ' n=%d' % rng.choice(COUNTS)
+        if capacity and rng.chance(0.3):
+            ln += ' bare=1'         # a caller without a protected block: errors are reported through the sticky code only
         if name.startswith('cap_'):
             ln += ' cap=%d' % rng.choice([-17, -16, -2, -1, -1, 0, 0, 1, 16])
         lines.append(ln)
